@@ -1,6 +1,6 @@
 (* Non-vacuity: concrete inputs satisfying the hypotheses of the theorems of Properties/C17.v. *)
 From PG Require Import Common.Tactics Model.ScopesBase Gen.ScopeDefs Model.Scopes
-  Proofs.ScopesStore Proofs.ScopesInstance Proofs.ScopesRestore Proofs.ScopesCongruence Proofs.ScopesEffective Proofs.ScopesMachine.
+  Proofs.ScopesStore Proofs.ScopesInstance Proofs.ScopesRestore Proofs.ScopesCongruence Proofs.ScopesEffective Proofs.ScopesMachine Proofs.ScopesSpec.
 
 (* C17_restore_value_scopes_exact: a program of flag scopes nested three deep with an exceptional exit *)
 Definition ex_exact : sprog :=
@@ -84,3 +84,11 @@ Example ex_deep_merge :
   = [VD [(0%Z, AD [(0%Z, ABool false); (2%Z, AD [(3%Z, AInt 1); (1%Z, AInt 7)]); (1%Z, ANone)])]; outer]
   /\ nodup_keys [(0%Z, AD [(0%Z, ABool false)])] = true.
 Proof. vm_compute. split; reflexivity. Qed.
+
+(* C17_refines_lexical_spec: the example program is valid, the initial state is well typed and refines the documented
+   defaults; the specification gives the observations without any store *)
+Example ex_refinement :
+  valid_prog example_prog = true /\ refines init_state (abs init_state)
+  /\ abs init_state (CG (GFlag i_notify_on_change)) = v_true /\ abs init_state (CG GPerm) = v_none
+  /\ aexec example_prog (abs init_state) = ([VD [(0%Z, AOv 1 true false); (1%Z, AOv 3 false false)]; v_true], false).
+Proof. split; [reflexivity|]. split; [apply refines_abs|]. vm_compute. auto. Qed.
